@@ -10,7 +10,7 @@ PROP_MODULES = {
     'C03': ['obligations.cache_ops'],
     'C04': ['obligations.cache_ops'],
     'C08': ['obligations.cache_ops'],
-    'C09': ['obligations.cache_ops'],
+    'C09': ['obligations.cache_ops', 'obligations.fanout_ops'],
     'C10': ['obligations.queue_ops', 'obligations.e2_jobs', 'obligations.persist_ops'],
     'C01': ['obligations.e2_jobs', 'obligations.cache_ops', 'obligations.queue_ops'],
     'C02': ['obligations.e2_jobs', 'obligations.cache_ops'],
@@ -21,15 +21,16 @@ PROP_MODULES = {
     'C20': ['obligations.recipes_ops'],
     'C19': ['obligations.django_ops'],
     'C17': ['obligations.check_ops', 'obligations.fanout_ops'],
-    'C11': ['obligations.persist_ops'],
-    'C12': ['obligations.persist_ops'],
-    'C05': ['obligations.conc_ops', 'obligations.block_ops', 'obligations.cache_ops', 'obligations.persist_ops', 'obligations.recipes_ops'],
+    'C11': ['obligations.persist_ops', 'obligations.fanout_ops'],
+    'C12': ['obligations.persist_ops', 'obligations.persistence_ops', 'obligations.fanout_ops'],
+    'C05': ['obligations.conc_ops', 'obligations.block_ops', 'obligations.cache_ops', 'obligations.persist_ops', 'obligations.recipes_ops', 'obligations.persistence_ops'],
     'C07': ['obligations.cache_ops', 'obligations.queue_ops', 'obligations.persist_ops', 'obligations.block_ops', 'obligations.persistence_ops'],
     'C14': ['obligations.cache_ops', 'obligations.queue_ops', 'obligations.fanout_ops', 'obligations.block_ops', 'obligations.django_ops'],
     'C16': ['obligations.e2_jobs', 'obligations.memo_ops'],
 }
 for _p in ('C04', 'C08'):
     PROP_MODULES[_p] = PROP_MODULES[_p] + ['obligations.queue_ops']
+PROP_MODULES['C04'] = PROP_MODULES['C04'] + ['obligations.conc_ops']
 PROP_MODULES['C08'] = PROP_MODULES['C08'] + ['obligations.block_ops', 'obligations.e2_jobs', 'obligations.persist_ops']
 
 
@@ -44,7 +45,7 @@ def jobs_for(prop, tier):
                 j.setdefault('engine', 'E1')
                 if j['engine'] != 'E1':
                     j['twin'] = False
-                j.setdefault('budget_s', 300 if tier == 'quick' else 1500)
+                j.setdefault('budget_s', 300 if tier == 'quick' else 2400)
                 j.setdefault('twin', True)
                 out.append(j)
     return out
